@@ -3,7 +3,18 @@ import json
 
 from . import chk_buf, chk_contract, chk_pyops, chk_save, chk_values
 
+def _thr(name):
+    def f(tier):
+        from . import chk_threads
+        return getattr(chk_threads, name)(tier)
+    return f
+
+
 CHECKS = {
+    "C09": _thr("check_C09"),
+    "C10": _thr("check_C10"),
+    "C13": _thr("check_C13"),
+    "C14": _thr("check_C14"),
     "C03": chk_pyops.check_C03,
     "C01": chk_pyops.check_C01,
     "C04": chk_contract.check_C04,
